@@ -34,6 +34,10 @@ CHECKS = {
    technique='deterministic simulation of create/destroy histories with clean restarts and crash-restarts (LD_PRELOAD shim kills the forked server at a seeded file-system call or between commit and response)',
    text='Histories by 2-3 clients biased to destroy-newest-then-create and destroy-all-then-create, with clean restarts and kill-restarts. Every identifier ever returned or found in the store after recovery must be new; after a successful (or crash-completed) Destroy every identity must get not-found for GetAttributes/Get and every other operation on it (also indirectly as wrapping key / derivation base must fail), Locate must never list it, and other objects must be unchanged by the Destroy.',
    note='Process death only. Identifier allocation is SQLite AUTOINCREMENT, which runs for real.'),
+ 'C08': dict(level='exploration', ref='5/C08',
+   technique='deterministic simulation of batch histories; twin-run oracle: the items reported successful are re-executed alone by a fresh engine on a copy of the pre-state and store + results must match',
+   text='Seeded stores and batches of 1-4 items mixing operations that succeed and that fail at different depths, with/without batch item IDs, Stop/Continue/Undo, batch-order flag, ID-placeholder chains. Checked: one result per processed item in order echoing operation and ID; Stop/Continue semantics; a request-level rejection must have had no effect; the final store and the per-item results must equal those of a twin run that executes only the reported-successful items (so failed items leave no trace, even through a later commit of the shared unit of work, do not disturb later items, and nothing takes effect unreported); id-less items address the latest object created in the batch.',
+   note='Values of keys generated by the server inside the batch are masked before stores are compared. Disk-error injection inside batches is part of C09, not of this check.'),
 }
 ALL = ['C%02d' % i for i in range(1, 21)]
 
